@@ -105,7 +105,23 @@ func Load(root string) (*Prog, error) {
 			}
 		}
 	}
-	p.RenameNotes = p.resolveRenames(current)
+	if tab := loadAnchorTable(); tab != nil && len(tab.Types) > 0 {
+		p.RenameNotes = p.resolveTypeAndFieldRenames(tab)
+		// keys computed before the type aliases were known are stale
+		current = map[string]*types.Func{}
+		for _, pkg := range p.All {
+			for _, f := range pkg.Syntax {
+				for _, d := range f.Decls {
+					if fd, ok := d.(*ast.FuncDecl); ok {
+						if obj, _ := pkg.TypesInfo.Defs[fd.Name].(*types.Func); obj != nil {
+							current[FuncKey(obj)] = obj
+						}
+					}
+				}
+			}
+		}
+	}
+	p.RenameNotes = append(p.RenameNotes, p.resolveRenames(current)...)
 	for _, pkg := range p.All {
 		for _, f := range pkg.Syntax {
 			for _, d := range f.Decls {
@@ -167,7 +183,7 @@ func FuncKey(obj *types.Func) string {
 		name := "?"
 		switch tt := t.(type) {
 		case *types.Named:
-			name = tt.Obj().Name()
+			name = typeName(tt.Obj())
 		case *types.Alias:
 			name = tt.Obj().Name()
 		default:
@@ -177,6 +193,14 @@ func FuncKey(obj *types.Func) string {
 		return aliasKey(pkg + "." + name + "." + obj.Name())
 	}
 	return aliasKey(pkg + "." + obj.Name())
+}
+
+// typeName is the name of a named type as the rules know it.
+func typeName(o *types.TypeName) string {
+	if a, ok := typeAlias[o]; ok {
+		return a
+	}
+	return o.Name()
 }
 
 func aliasKey(k string) string {
